@@ -98,7 +98,9 @@ struct Arr@ { ¶T data[N]; ¶T get(int i) const § { ¶return data[i & (N - 1)];
 ]
 
 
-def tokens_of(text, suffix):
+def tokens_of(text, suffix, junk_brackets=True):
+    if not junk_brackets:
+        text = text.replace('this is ) not C++ ]', 'this is not C++')
     text = text.replace('@', suffix).replace('§', ' __SLOT__ ').replace('¶', ' __STMT__ ')
     toks = []
     in_dir = False
@@ -135,12 +137,12 @@ def tokens_of(text, suffix):
 
 
 @st.composite
-def cpp_program(draw, max_snippets=5):
+def cpp_program(draw, max_snippets=5, junk_brackets=True):
     n = draw(st.integers(1, max_snippets))
     toks = []
     for i in range(n):
         k = draw(st.integers(0, len(SNIPPETS) - 1))
-        toks += tokens_of(SNIPPETS[k], '%d' % i)
+        toks += tokens_of(SNIPPETS[k], '%d' % i, junk_brackets)
     return toks
 
 
